@@ -15,6 +15,22 @@ open Boario
 
 variable {d : Dims}
 
+/-- `calc_matrix_stock_gap` of the source (psi class over the base class; for the base class the restoration rate is 1)
+    is the model's `gapOpen`: goal minus stock where positive, times the restoration rate, nothing for an input with
+    infinite inventories. -/
+theorem gapOpen_is_code (p : Params d) (stock : Fin d.n → Ind d → Rat) (x : Ind d → Rat) (s : Fin d.n) (f : Ind d) :
+    stock_gap_psi_cell (p.rest s) (stock_gap_base_cell (p.invDur s).isSome (goal p x s f) (stock s f))
+      = gapOpen p stock x s f := by
+  simp only [stock_gap_psi_cell, stock_gap_base_cell, gapOpen, pos]
+  cases h : p.invDur s <;> simp only [Option.isSome] <;> formula_cases
+
+/-- the goal inventory is the constraint without psi (`matrix_stock_goal = tile(production_opt) · tech_mat · inv_duration`,
+    0 where the duration is infinite in the model's convention). -/
+theorem goal_is_code (p : Params d) (x : Ind d → Rat) (s : Fin d.n) (f : Ind d) :
+    calc_inventory_constraints_base (x f) (p.a s f) (durOrZero p s) = goal p x s f := by
+  simp only [calc_inventory_constraints_base, goal] <;>
+    (first | rfl | ring1)
+
 /-- `calc_orders`: the need of an input is the model's `needWith`. -/
 theorem needWith_is_code (p : Params d) (gap : Fin d.n → Ind d → Rat) (prod : Ind d → Rat) (s : Fin d.n) (f : Ind d) :
     need_cell (gap s f) (prod f) (p.a s f) = needWith p gap prod s f := by
